@@ -14,7 +14,7 @@ def spec(tier):
                               pipe(s3, prio=2, at="tb", durs=[1, 1, 1, 1], mems=[1, "ma", 1, 1])])
             if th:
                 obs.append(CH(name=f"overbook_P{pools}_s{si}", harness="sched.overbook",
-                              sym=dict(cpus=I(1, 6), ram=I(1, 30), ma=I(0, 32), mb=I(0, 32), ta=I(0, 3), tb=I(0, 3), da=I(1, 2)),
+                              sym=dict(cpus=I(1, 8), ram=I(1, 40), ma=I(0, 42), mb=I(0, 42), ta=I(0, 3), tb=I(0, 3), da=I(1, 2)),
                               fixed=dict(cfg=cfg), timeout=2400))
             else:
                 for (lo, hi) in ((1, 3), (4, 6)):
